@@ -542,13 +542,14 @@ package flags
 //@   loop 2 invariant forall(k, old(ncalls(Parser.parseShort)), ncalls(Parser.parseShort), okResult(p, callres(Parser.parseShort, k, 0)))
 //@   loop 2 invariant p.Options&IgnoreUnknown != 0 ==> ncalls(Parser.UnknownOptionHandler) == old(ncalls(Parser.UnknownOptionHandler))
 //@   loop 2 invariant[C07] ncalls(Parser.UnknownOptionHandler) > old(ncalls(Parser.UnknownOptionHandler)) && calltime(Parser.UnknownOptionHandler, ncalls(Parser.UnknownOptionHandler) - 1) == clock() - 1 && s.err == nil ==> same(s.args, callres(Parser.UnknownOptionHandler, ncalls(Parser.UnknownOptionHandler) - 1, 0))
-//@   at[C03] call parseState.addArgs "s.arg": !(p.Options&PassDoubleDash != 0 && arg == "--")
+// (C10 too: the terminator is not a positional token - it never reaches the positional machinery, whatever other pass-through option is set)
+//@   at[C03,C10] call parseState.addArgs "s.arg": !(p.Options&PassDoubleDash != 0 && arg == "--")
 // (PassAfterNonOption: the pass-through tail starts at the first non-option word that is NOT a
 // subcommand name or alias of the command active at that point; such a name still switches commands)
 //@   at[C08,C03] call parseState.addArgs "s.arg": p.Options&PassAfterNonOption != 0 && !argumentIsOption(arg) && s.lookup.commands[arg] == nil
 //@   at[C08,C03] call Parser.parseNonOption #1: !argumentIsOption(arg) && (p.Options&PassAfterNonOption == 0 || s.lookup.commands[arg] != nil)
-//@   at[C03] call parseState.addArgs "arg": !(p.Options&PassDoubleDash != 0 && arg == "--")
-//@   at[C03] call Parser.parseNonOption #1: !(p.Options&PassDoubleDash != 0 && arg == "--")
+//@   at[C03,C10] call parseState.addArgs "arg": !(p.Options&PassDoubleDash != 0 && arg == "--")
+//@   at[C03,C10] call Parser.parseNonOption #1: !(p.Options&PassDoubleDash != 0 && arg == "--")
 // (C03, whole argument vector: as long as no unknown-option handler has replaced the pending tokens they are
 // a suffix of the original vector - nothing altered, invented or reordered among them - the token in hand is
 // the one just before that suffix, and no more tokens have been set aside than have been taken)
@@ -1009,8 +1010,10 @@ package flags
 //@ axiom manual chain_step: forall root *Command, k int :: k >= 0 && activeAt(root, k) != nil ==> activeAt(root, k+1) == activeAt(root, k).Active && k < chainLen(root)
 //@ axiom manual chain_end: forall root *Command, k int :: k >= 0 && activeAt(root, k) == nil ==> k >= chainLen(root)
 
+// (library fact: Len panics unless the value is a slice, map, string, array, channel or pointer to array - C04)
 //@ assumed func reflect.Value.Len(v reflect.Value) (n int)
 //@   pure
+//@   requires v.Type().Kind() == reflect.Slice || v.Type().Kind() == reflect.Map || v.Type().Kind() == reflect.String || v.Type().Kind() == reflect.Array || v.Type().Kind() == reflect.Chan || (v.Type().Kind() == reflect.Ptr && v.Type().Elem().Kind() == reflect.Array)
 //@   ensures n >= 0
 //@ assumed func (option *Option) String() (s string)
 //@   pure
